@@ -63,8 +63,13 @@ theorem output_observes_contiguous_run (src : Nat → α) (s : St α) (hi : Inv 
   obtain ⟨href, _⟩ := run_refines src (.send :: post) s hi hf (by simpa using hn)
   rw [h] at href
   simp only [Option.map] at href
+  -- the run starts with a `send`, so the handle is alive
+  have hh : s.handle = true := by
+    cases hb : s.handle with
+    | true => rfl
+    | false => simp [run, step, hb] at h
   -- shape of the concrete run
-  simp only [run, step] at h
+  simp only [run, step, hh, if_true] at h
   cases hr : run src (send s).2 post with
   | none => simp [hr] at h
   | some tr' =>
@@ -72,7 +77,7 @@ theorem output_observes_contiguous_run (src : Nat → α) (s : St α) (hi : Inv 
     subst h
     refine ⟨(send s).2, tr', rfl, ?_⟩
     -- the abstract run from the state right after `send`
-    simp only [Abs.run, Abs.step, absOf] at href
+    simp only [Abs.run, Abs.step, absOf, hh, if_true] at href
     have hmod : (s.nextKey + 1) % usizeMod = s.nextKey + 1 := Nat.mod_eq_of_lt (by omega)
     generalize hra : Abs.run src _ post = ar at href
     cases ar with
@@ -95,7 +100,7 @@ theorem send_attaches_at_P (src : Nat → α) (s : St α) (hi : Inv src s) (hf :
     (send s).1 = s.nextKey ∧ cursor (send s).2 s.nextKey = some s.pos ∧
     (∀ k', k' ≠ s.nextKey → cursor (send s).2 k' = cursor s k') ∧
     (send s).2.pos = s.pos ∧ (send s).2.buf = s.buf ∧ Inv src (send s).2 := by
-  obtain ⟨h1, h2, h3, h4, h5, _, h7⟩ := send_spec src s hi (absent_of_fresh hf)
+  obtain ⟨h1, h2, h3, h4, h5, _, _, h7⟩ := send_spec src s hi (absent_of_fresh hf)
   exact ⟨h1, h2, h3, h4, h5, h7⟩
 
 /-- "each output observes exactly the contiguous run … in order, without loss or duplication" and "the
@@ -112,7 +117,7 @@ theorem next_returns_cursor_frame (src : Nat → α) (s : St α) (hi : Inv src s
   | none => simp [cursor, hl] at hc
   | some fr =>
     have hc' : c = base s + fr := by simp [cursor, hl] at hc; omega
-    obtain ⟨frame, s', e, hframe, h1, h2, h3, _, _, h6⟩ := nextFrame_spec src s k fr hi hl
+    obtain ⟨frame, s', e, hframe, h1, h2, h3, _, _, _, h6⟩ := nextFrame_spec src s k fr hi hl
     have hb := (cursor_bounds hi hc).2
     subst hc'; subst hframe
     refine ⟨s', e, h1, h2, hb, ?_, h6⟩
@@ -128,8 +133,26 @@ theorem drop_removes_only_its_cursor (src : Nat → α) (s : St α) (hi : Inv sr
   cases hl : lookup k s.reads with
   | none => simp [cursor, hl] at hc
   | some fr =>
-    obtain ⟨s', e, h1, h2, h3, _, _, h6⟩ := dropOutput_spec src s k fr hi hl
+    obtain ⟨s', e, h1, h2, h3, _, _, _, h6⟩ := dropOutput_spec src s k fr hi hl
     exact ⟨s', e, h1, h2, h3, h6⟩
+
+/-- Dropping the `Bus` HANDLE while outputs are alive (the handle has no `Drop` impl, the shared node lives
+    on in the outputs' `Rc`s): no cursor, no pull count, no backlog frame changes and the invariant is kept;
+    `nextFrame`, `pendingFrames` and `dropOutput` never read the flag, so every theorem of this file about them
+    applies unchanged to outputs that outlive the handle (and `bus_refines_cursor_spec` covers `dropBus` at
+    any point of a sequence: only `send` needs the handle). -/
+theorem handle_drop_changes_nothing (src : Nat → α) (s : St α) (hi : Inv src s) :
+    (∀ k, cursor (dropBus s) k = cursor s k) ∧ (dropBus s).pos = s.pos ∧ (dropBus s).buf = s.buf ∧
+    (∀ k, pendingFrames (dropBus s) k = pendingFrames s k) ∧
+    (∀ k, (nextFrame src (dropBus s) k).map (fun r => (r.1, r.2.pos, r.2.buf, r.2.reads)) =
+          (nextFrame src s k).map (fun r => (r.1, r.2.pos, r.2.buf, r.2.reads))) ∧
+    Inv src (dropBus s) := by
+  refine ⟨fun _ => rfl, rfl, rfl, fun _ => rfl, ?_, ⟨hi.len_le, hi.buf_eq, hi.fr_le, hi.nodup, hi.minimal⟩⟩
+  intro k
+  unfold nextFrame dropBus
+  cases lookup k s.reads with
+  | none => rfl
+  | some fr => simp only; split <;> rfl
 
 /-! ## What the invariant says (holds in every reachable state by the theorems above) -/
 
@@ -183,6 +206,21 @@ theorem backlog_empty_when_all_caught_up (src : Nat → α) (s : St α) (hi : In
       unfold base at *; omega
   exact ⟨hb, by simp [backlogLen, hb]⟩
 
+/-- EXTENSION beyond C13's literal statement (C05's exhaustion applied to bus outputs): in every state
+    satisfying the invariant, `Output::is_exhausted` of a live output with cursor `c` is
+    "`c = P` and the source reports exhaustion" — it depends on THIS output's position only, not on what
+    other outputs still have pending. (`srcDone p` = the source's `is_exhausted()` after `p` pulls.) -/
+theorem exhausted_iff_received_all_and_source_done (src : Nat → α) (srcDone : Nat → Bool) (s : St α)
+    (hi : Inv src s) (k c : Nat) (hc : cursor s k = some c) :
+    isExhausted srcDone s k = some (decide (c = s.pos) && srcDone s.pos) := by
+  obtain ⟨hp, hle⟩ := pending_is_pulled_minus_received src s hi k c hc
+  simp only [isExhausted, hp, Option.map]
+  congr 1
+  by_cases h : c = s.pos
+  · subst h; simp
+  · have : s.pos - c ≠ 0 := by omega
+    simp [h, this]
+
 /-- the guard `frames_read < num_frames` (bus.rs:184) puts the only backlog index access in range, so
     the totalised `getD` of the model never uses its default -/
 theorem backlog_access_in_range (s : St α) (fr : Nat) (d : α) (h : fr < s.buf.length) :
@@ -201,7 +239,7 @@ example : (run (fun i => 100 + i) (init : St Nat) exOps).map (List.map fun r => 
           (.frame 102, 3, [100, 101, 102]), (.frame 100, 3, [101, 102]), (.key 2, 3, [101, 102]),
           (.frame 103, 4, [101, 102, 103])] := by decide
 
-def exState : St Nat := ⟨4, [101, 102, 103], [(0, 2), (1, 0), (2, 3)], 3⟩
+def exState : St Nat := ⟨4, [101, 102, 103], [(0, 2), (1, 0), (2, 3)], 3, true⟩
 
 example : Inv (fun i => 100 + i) exState :=
   ⟨by decide, by decide, by decide, by decide, Or.inr ⟨(1, 0), by decide, rfl⟩⟩
@@ -221,6 +259,20 @@ example : (run (fun i => i) (init : St Nat) [.send, .send, .next 0, .next 1]).ma
 -- `received`: in the example run output 0 got 100,101,102, output 1 got 100, output 2 (attached at P = 3) got 103
 example : (run (fun i => 100 + i) (init : St Nat) exOps).map (fun tr => (received 0 exOps tr, received 1 exOps tr, received 2 exOps tr)) =
     some ([100, 101, 102], [100], [103]) := by decide
+-- the Bus handle dropped with two live outputs: they keep their streams (output 1 still gets 100, 101)
+example : (run (fun i => 100 + i) (init : St Nat) [.send, .send, .dropBus, .next 0, .next 0, .next 1, .next 1]).map
+    (List.map fun r => (r.1, r.2.pos)) =
+    some [(.key 0, 0), (.key 1, 0), (.unit, 0), (.frame 100, 1), (.frame 101, 2), (.frame 100, 2), (.frame 101, 2)] := by decide
+-- … and `send` is what is no longer possible
+example : run (fun i => i) (init : St Nat) [.send, .dropBus, .send] = none := by decide
+-- finite source of 3 frames, output 1 lags: the leading output 0 is exhausted after 3 frames although 1 is not;
+-- until_exhausted over output 1 then yields exactly the three frames
+example : (runX (fun i => if i < 3 then 100 + i else 0) (fun p => decide (3 ≤ p)) 10 (init : St Nat)
+      [.op .send, .op .send, .op (.next 0), .op (.next 0), .op (.next 0)]).map
+      (fun tr => tr.getLast?.map fun r => (isExhausted (fun p => decide (3 ≤ p)) r.2 0, isExhausted (fun p => decide (3 ≤ p)) r.2 1)) =
+    some (some (some true, some false)) := by decide
+example : (untilExhausted (fun i => if i < 3 then 100 + i else 0) (fun p => decide (3 ≤ p)) 10
+      (⟨3, [100, 101, 102], [(0, 3), (1, 0)], 2, true⟩ : St Nat) 1).map (·.1) = some [100, 101, 102] := by decide
 -- operations on an output that is not live are the (only) failing ones
 example : run (fun i => i) (init : St Nat) [.send, .drop 0, .next 0] = none := by decide
 
